@@ -139,6 +139,9 @@ class Sym:
             st = self._forward_store(fn, ins, addr, binding, depth, memo, cid)
             if st is not None:
                 return st
+            cg = self._const_global(addr)
+            if cg is not None:
+                return cg
             return ("load", addr)
         if op == "add":
             return mk_add([V(ins.ops[0]), V(ins.ops[1])])
@@ -174,6 +177,27 @@ class Sym:
         if op == "extractvalue":
             return ("op", "extractvalue", V(ins.ops[0]), ("const", 0))
         return ("unk", op)
+
+    def _const_global(self, addr):
+        """load of a 64-bit integer cell of a constant global with an initialiser (constexpr arrays)."""
+        base, off = split_base(addr)
+        if base is None or base[0] != "global":
+            return None
+        for g in self.mod.globals.values():
+            if g["dname"] == base[1]:
+                if not g.get("const") or "init" not in g:
+                    return None
+                init = g["init"]
+                if init[0] == "c" and off == 0:
+                    return ("const", init[1])
+                if init[0] == "agg" and off % 8 == 0 and "i64" in g.get("ty", ""):
+                    k = off // 8
+                    if 0 <= k < len(init[1]) and init[1][k][0] == "c":
+                        return ("const", init[1][k][1])
+                if init[0] == "zero":
+                    return ("const", 0)
+                return None
+        return None
 
     def _forward_store(self, fn, load, addr, binding, depth, memo, cid):
         """load from a local slot (alloca + const) that has exactly one store in its owning function
